@@ -170,7 +170,8 @@ def run_case(case: dict) -> dict:
     spec = _spec_for(case["spec_i"], case["seed"])
     order = "fifo" if case["order"] == "fifo" else "random"
     seed = case["seed"] * 11 + (2 if case["order"] == "random2" else 1)
-    ref, snaps = crash.reference_with_snapshots(spec, seed=seed, order=order)
+    events = case["spec_i"] % 3 == 1  # a third of the runs with event sourcing in the same database
+    ref, snaps = crash.reference_with_snapshots(spec, seed=seed, order=order, events=events)
     obs: Counter = Counter()
     keys: set = set()
     violations: list[dict] = []
@@ -242,9 +243,10 @@ def run_case(case: dict) -> dict:
                 finally:
                     snaps2.cleanup()
                 continue
-            run, _ = crash.resume(snaps.path(k), pre, max_steps=budget)
+            run, _ = crash.resume(snaps.path(k), pre, max_steps=budget, events=events)
             obs["evaluations"] += 1
             obs["crash_points_resumed"] += 1
+            obs["with_event_sourcing"] += int(events)
             if tag:
                 obs["in_handler_crash_points"] += 1
                 keys.add(f"{spec['name']}:{tag[0]}:{ordinal[k]}")
